@@ -12,7 +12,7 @@
    show that the hypotheses never exclude a state or a store answer. *)
 From Coq Require Import List NArith ZArith Bool Lia.
 From Verif Require Import Locks.Model Locks.ProofsBase Locks.ProofsInv Locks.ProofsCommit Locks.ProofsLock
-  Locks.ProofsLockAgg Locks.ProofsLockAll Locks.ProofsMain.
+  Locks.ProofsLockAgg Locks.ProofsLockAll Locks.ProofsMain Locks.ProofsKA.
 Import ListNotations.
 Open Scope N_scope.
 
@@ -179,6 +179,43 @@ Example C06_late_rollback_after_retry :
   let s := run (init true) late_rollback_run in
   store s = [(1, Pess 20); (2, Pess 20)] /\ flags s = [1; 2] /\ tasks s = [].
 Proof. split; [wf_solve|]. vm_compute. auto. Qed.
+
+(* keep-alive (ttlManager, state [ka]: uninitialised / running bound to a key / closed): under the API
+   contract plus [ts_contract] (no for-update ts below a conflict ts the caller was told — the code's
+   "unreachable path" would keep a tentative primary), whenever the keep-alive is running it is bound to
+   the current primary, except inside an aggressive-locking retry window (RetryAggressiveLocking gave the
+   primary up and deliberately keeps the keep-alive; no primary is set there); and it is not running
+   once the transaction has ended *)
+Theorem C06_keepalive_bound_to_primary :
+  forall (p : bool) (evs : list ev), wf_run_ts (init p) evs ->
+  let s := run (init p) evs in
+  (forall k, ka s = KRunning k -> primary s = Some k \/ retry_window s) /\
+  (valid s = false -> forall k, ka s <> KRunning k).
+Proof. exact keepalive_inv. Qed.
+Print Assumptions C06_keepalive_bound_to_primary.
+
+(* non-vacuity: a run through a retry window (keep-alive kept on the given-up primary 1, then moved to the
+   new primary 2), a lock-only-if-exists miss that drops the tentative primary, and the end of the transaction *)
+Definition keepalive_run : list ev :=
+  [ELock [7] true false true 5 (mkLO false false [] [7] 0 None);
+   EAggStart; ELock [1] false false false 10 (mkLO false false [1] [] 0 None); EAggRetry;
+   ELock [2] false false false 20 (mkLO false false [2] [] 0 None); EAggDone; ERun 0; ECommit (mkCO M1PC [] [] [] COk)].
+Example C06_keepalive_run :
+  wf_run_ts (init true) keepalive_run /\
+  ka (run (init true) (firstn 1 keepalive_run)) = KUninit /\
+  ka (run (init true) (firstn 3 keepalive_run)) = KRunning 1 /\
+  (let s := run (init true) (firstn 4 keepalive_run) in ka s = KRunning 1 /\ primary s = None) /\
+  (let s := run (init true) (firstn 5 keepalive_run) in ka s = KRunning 2 /\ primary s = Some 2) /\
+  ka (run (init true) keepalive_run) = KClosed.
+Proof.
+  split; [|vm_compute; auto 10].
+  unfold keepalive_run. cbn [wf_run_ts]. repeat split;
+    try (vm_compute; repeat split; try reflexivity; intros; discriminate);
+    try exact I;
+    cbn [ts_contract]; intros a k e' Ha Hf; apply findk_In in Hf; vm_compute in Ha; try discriminate;
+    inversion Ha; subst a; simpl in Hf; intuition;
+    match goal with H : (_, _) = (_, _) |- _ => inversion H; subst; vm_compute; intros; discriminate end.
+Qed.
 
 (* ---- regression replays of the fixed findings F19 / F19b ---- *)
 Definition ok_lock (ks : list key) : lock_out := mkLO false false ks [] 0 None.
